@@ -180,6 +180,7 @@ def run_case(case, ctx):
                               trace=traceback.format_exc()[-800:], **w))
     # ---------------- (B) export + re-render
     if case.get("export"):
+        refused = False
         try:
             Species.reset()
             net = build(case, work)
@@ -187,18 +188,27 @@ def run_case(case, ctx):
             net.to_code(method="dense", path=str(direct))
             net.export("exported", solver="cvode", method="dense", device="cpu", prefix=str(work), overwrite=True)
             exp_dir = work / "exported"
-            Species.reset()
-            rc, out, err = clihelp.run_command("render", "--force", exp_dir)
-            refused = rc != 0
         except Exception as e:
             refused = True
             obs["export_or_rerender_refused"] += 1
+            sample["refused"] = f"export: {type(e).__name__}: {str(e)[:100]}"
             if not untyped and not isinstance(e, (NotImplementedError,)):
                 w = {}
                 if case["src"] == "leeds" and "starts with something unrecognizable" in str(e) and str(e).startswith("G"):
                     w["mechanism"] = "C18/leeds-ice-prefix-G-written-verbatim"
-                viol.append(violation("export_raised", f"{case['src']}: export / re-render raised {type(e).__name__}: {e}", trace=traceback.format_exc()[-800:], **w))
-            sample["refused"] = f"{type(e).__name__}: {str(e)[:100]}"
+                viol.append(violation("export_raised", f"{case['src']}: export raised {type(e).__name__}: {e}", trace=traceback.format_exc()[-800:], **w))
+        if not refused:
+            try:
+                Species.reset()
+                rc, out, err = clihelp.run_command("render", "--force", exp_dir)
+                refused = rc != 0
+            except Exception as e:
+                # re-rendering an exported project may be *refused with an error* (e.g. "Unknown reaction type 302"): allowed by the property
+                refused = True
+                obs["rerender_refused_with_error"] += 1
+                sample["refused"] = f"re-render: {type(e).__name__}: {str(e)[:100]}"
+                if case["src"] == "leeds" and "starts with something unrecognizable" in str(e) and str(e).startswith("G"):
+                    viol.append(violation("export_raised", f"{case['src']}: re-render raised {type(e).__name__}: {e}", mechanism="C18/leeds-ice-prefix-G-written-verbatim"))
         if not refused:
             try:
                 b0 = lab.build_cvode(direct, work / "b0", "dense", ctx.cache, core_only=True)
